@@ -97,6 +97,19 @@ func (p *Prog) predKey(c ssa.Value) (string, bool) {
 	if !ok {
 		return "", false
 	}
+	// fs.FileInfo / fs.DirEntry accessors on a parameter: the description of an entry handed to a
+	// callback does not change while the callback runs
+	if call.Call.IsInvoke() {
+		if prm, isPrm := canon(call.Call.Value).(*ssa.Parameter); isPrm && len(call.Call.Args) == 0 {
+			if n, ok := types.Unalias(prm.Type()).(*types.Named); ok && (n.Obj().Name() == "FileInfo" || n.Obj().Name() == "DirEntry") {
+				switch call.Call.Method.Name() {
+				case "IsDir", "Mode", "Name", "Size", "ModTime", "Type":
+					return fmt.Sprintf("invoke|%p|%s", prm, call.Call.Method.Name()), true
+				}
+			}
+		}
+		return "", false
+	}
 	g := call.Common().StaticCallee()
 	if g == nil || !p.isPurePredicate(g, 0) {
 		return "", false
